@@ -297,6 +297,17 @@ func summariseCatch(c *core.Ctx, ci *catchImpl) {
 				if sent > 1 || afterSent {
 					bad(fmt.Sprintf("a path of catch hands the error over %d times / goes on after having handed it over (want exactly 1 hand-off)", sent))
 				}
+				if sent == 0 && !cancelled && gaveUp && ret.IsConst() && ret.Aux == "false" {
+					// `select { case exx <- err: default: }` in the fail-fast form: whether the channel always has room is
+					// the very capacity claim a plain send needs (constant capacity >= 1, one send per stage because every
+					// caller leaves on false; per-stage accounting in fork) - the attempt is accounted as a plain send, so
+					// that claim is checked (errch-capacity, catch-impl-blocking, exx-capacity). Not the try form.
+					try = false
+					if ci.PlainSends < 1 {
+						ci.PlainSends = 1
+					}
+					continue
+				}
 				if sent == 0 && !cancelled {
 					bad("a path of catch makes 0 hand-off attempts (want exactly 1)")
 					if gaveUp {
